@@ -7,6 +7,7 @@ import (
 	"encoding/json"
 	"fmt"
 	"os"
+	"regexp"
 	"sort"
 	"time"
 
@@ -44,6 +45,16 @@ type Job struct {
 	StepCap  int64   `json:"step_cap"`
 	FirstIdx int     `json:"first_index"`
 	OnlyCell int     `json:"only_cell"` // >0: run just this floor cell (stored +1)
+	Known    []Known `json:"known,omitempty"`
+}
+
+// Known is an open known finding: a failure whose check and message match is
+// counted, not shrunk and not reported as a violation.
+type Known struct {
+	ID       string `json:"id"`
+	Check    string `json:"check"`
+	MsgRegex string `json:"msg_regex"`
+	re       *regexp.Regexp
 }
 
 type Violation struct {
@@ -81,6 +92,8 @@ type Output struct {
 	WallS       float64           `json:"wall_s"`
 	Aborted     int64             `json:"aborted_runs"`
 	Diverged    []string          `json:"diverged,omitempty"`
+	KnownHits   map[string]int64  `json:"known_hits,omitempty"`
+	KnownSample map[string]string `json:"known_sample,omitempty"`
 	ReplayFails []simrt.Failure   `json:"replay_failures,omitempty"`
 	ReplayTrace []string          `json:"replay_trace,omitempty"`
 }
@@ -109,6 +122,24 @@ func Main() int {
 		return 2
 	}
 	return 0
+}
+
+// checkIn: list is one check name or several separated by '|'.
+func checkIn(list, check string) bool {
+	for len(list) > 0 {
+		i := 0
+		for i < len(list) && list[i] != '|' {
+			i++
+		}
+		if list[:i] == check {
+			return true
+		}
+		if i == len(list) {
+			break
+		}
+		list = list[i+1:]
+	}
+	return false
 }
 
 // progress records which run is in flight, so that the orchestrator can
@@ -199,6 +230,23 @@ func run(job Job, eng Engine) *Output {
 		account(r)
 		if len(r.Failures) == 0 {
 			return
+		}
+		for i := range job.Known {
+			k := &job.Known[i]
+			if k.re == nil {
+				k.re = regexp.MustCompile(k.MsgRegex)
+			}
+			if checkIn(k.Check, r.Failures[0].Check) && k.re.MatchString(r.Failures[0].Msg) {
+				if out.KnownHits == nil {
+					out.KnownHits = map[string]int64{}
+					out.KnownSample = map[string]string{}
+				}
+				out.KnownHits[k.ID]++
+				if out.KnownSample[k.ID] == "" {
+					out.KnownSample[k.ID] = r.Failures[0].Msg
+				}
+				return
+			}
 		}
 		v := Violation{Check: r.Failures[0].Check, Msg: r.Failures[0].Msg, Seed: job.Seed, Index: index, Cell: cell, RunSeed: runSeed, OrigLen: len(r.Choices), Kind: job.Kind}
 		for _, f := range r.Failures {
